@@ -262,17 +262,38 @@ def _short(o):
 
 
 # ---- CLI ---------------------------------------------------------------------------------
-def cli_run(ctx, text, models, target, tag):
-    """tools.compiler.main on a scratch file; per-model observations through wrappers of the
-    module's own flatten_class / translate (return value, exception class, generated file)."""
+def cli_run(ctx, text, models, target, tag, files=None):
+    """tools.compiler.main on scratch files (one file per top-level class when `files` is given,
+    as `-t casadi` needs `<model>.mo`); per-model observations through wrappers of the module's own
+    flatten_class / translate and of casadi.api.transfer_model (return value or canonical model,
+    exception class, generated file)."""
     import tools.compiler as comp
     d = os.path.join(ctx.scratch, "cli-%s" % tag)
     os.makedirs(os.path.join(d, "out"), exist_ok=True)
-    src = os.path.join(d, "Lib.mo")
-    with open(src, "w") as f:
-        f.write(text)
+    if files:
+        src = os.path.join(d, "src")
+        os.makedirs(src, exist_ok=True)
+        for fn in sorted(files):
+            with open(os.path.join(src, fn), "w") as f:
+                f.write(files[fn])
+    else:
+        src = os.path.join(d, "Lib.mo")
+        with open(src, "w") as f:
+            f.write(text)
     obs = []
     of, ot = comp.flatten_class, comp.translate
+    capi = None
+    if target == "casadi":
+        import pymoca.backends.casadi.api as capi
+        otm = capi.transfer_model
+
+        def tm(model_folder, model_name, compiler_options=None):
+            r = a04.outcome(lambda: otm(model_folder, model_name, compiler_options))
+            obs.append([model_name, "ok", a04.casadi_canon(r[1])] if r[0] == "ok" else [model_name, "exc", r[1]])
+            if r[0] != "ok":
+                raise Exception("transfer_model failed")   # what main() catches: any Exception
+            return r[1]
+        capi.transfer_model = tm
 
     def fc(lib, cls):
         r = a04.outcome(lambda: of(lib, cls))
@@ -311,6 +332,8 @@ def cli_run(ctx, text, models, target, tag):
             rc = ["raised", type(e).__name__]
     finally:
         comp.flatten_class, comp.translate = of, ot
+        if capi is not None:
+            capi.transfer_model = otm
     return rc, obs
 
 
@@ -322,12 +345,12 @@ class _Propagated(Exception):
 
 def check_cli(ctx, case):
     quiet_logs()
-    text, models, target = case["text"], case["models"], case.get("target")
+    text, models, target, files = case["text"], case["models"], case.get("target"), case.get("files")
     single = {}
     for m in models:
         if m not in single:
-            single[m] = cli_run(ctx, text, [m], target, "s%d" % len(single))
-    multi_rc, multi_obs = cli_run(ctx, text, models, target, "m")
+            single[m] = cli_run(ctx, text, [m], target, "s%d" % len(single), files)
+    multi_rc, multi_obs = cli_run(ctx, text, models, target, "m", files)
     ctx.count("cli-%s" % (target or "flatten-only"))
     # expected: the single runs one after the other, stopping at the first one that does not return
     exp_obs, exp_rc, total = [], None, 0
@@ -443,14 +466,21 @@ def models_cases(ctx):
                    findclass=[ctx.rng.choice(paths)])
 
 
-def gen_cli_case(ctx, rng):
+def gen_cli_case(ctx, rng, target=None):
+    """every target of the CLI (flatten only, -t sympy, -t casadi) with several -m; one file per top-level class"""
     lib, g = a04.gen_library(rng)
     text = a04.render(lib)
-    names = [".".join(p) for p in a04.class_paths(lib)]
+    files = {c["name"] + ".mo": a04.render_cls(c) for c in lib["classes"]}
+    if target == "casadi":
+        names = [c["name"] for c in lib["classes"] if c["kind"] == "model"]    # needs <model>.mo
+    else:
+        names = [".".join(p) for p in a04.class_paths(lib)]
     models = [rng.choice(names) for _ in range(rng.randint(2, 5))]
     if rng.random() < 0.5:
         models.append(models[0])
-    return dict(stream="cli", text=text, models=models, target=rng.choice([None, None, "sympy"]))
+    if target == "casadi" and rng.random() < 0.2:
+        models.insert(rng.randrange(len(models) + 1), "NoSuchModel")
+    return dict(stream="cli", text=text, files=files, models=models, target=target)
 
 
 def run_case(ctx, case, drv):
@@ -480,11 +510,11 @@ def run(ctx):
         ctx.count("stream-models")
         run_case(ctx, case, drv)
     ctx.extra["models_stream_s"] = round(_t.time() - t0, 1)
-    ncli = 4 if quick else 80
+    ncli = 6 if quick else 120
     for i in range(ncli):
         if ctx.time_left() < 0:
             break
-        run_case(ctx, gen_cli_case(ctx, ctx.rng), drv)
+        run_case(ctx, gen_cli_case(ctx, ctx.rng, [None, "sympy", "casadi"][i % 3]), drv)
     nlib, nreq = (30, 12) if quick else (1500, 30)
     for i in range(nlib):
         if ctx.time_left() < 0:
